@@ -55,6 +55,7 @@ func normalizeURI(refPath, base string) string {
 
 	if refURL.Scheme == fileScheme {
 		refURL.RawQuery = "" // any query component is irrelevant for a local file
+		refURL.ForceQuery = false
 	}
 
 	r := MustCreateRef(refURL.String())
@@ -189,6 +190,7 @@ func normalizeBase(in string) string {
 
 	if u.Scheme == fileScheme {
 		u.RawQuery = "" // any query component is irrelevant for a local file
+		u.ForceQuery = false
 	}
 
 	if u.Scheme != "" {
@@ -207,5 +209,6 @@ func normalizeBase(in string) string {
 	u.Scheme = fileScheme
 	u.Path = absPath(u.Path) // platform-dependent
 	u.RawQuery = ""          // any query component is irrelevant for a base
+	u.ForceQuery = false
 	return u.String()
 }
